@@ -15,3 +15,4 @@ import AcryoVerif.Props.C01
 import AcryoVerif.Props.C11
 import AcryoVerif.Props.C03
 import AcryoVerif.Props.C10
+import AcryoVerif.Props.C14
